@@ -6,7 +6,6 @@ import (
 	"log/slog"
 	"regexp"
 	"slices"
-	"sort"
 	"strings"
 
 	"github.com/prometheus/common/model"
@@ -329,10 +328,13 @@ func matchEntries(before, after []Entry) (ml []matchedEntry) {
 }
 
 func isEntryIdentical(b, a Entry) bool {
-	if !slices.Equal(sort.StringSlice(b.DisabledChecks), sort.StringSlice(a.DisabledChecks)) {
+	// Compare sorted copies, the order of file/disable comments is not a change.
+	before := slices.Sorted(slices.Values(b.DisabledChecks))
+	after := slices.Sorted(slices.Values(a.DisabledChecks))
+	if !slices.Equal(before, after) {
 		slog.Debug("List of disabled checks was modified",
-			slog.Any("before", sort.StringSlice(b.DisabledChecks)),
-			slog.Any("after", sort.StringSlice(a.DisabledChecks)))
+			slog.Any("before", before),
+			slog.Any("after", after))
 		return false
 	}
 	return true
